@@ -77,21 +77,27 @@ pub fn judge(w: &World) -> Judged {
 
 pub fn run(ctx: &mut Ctx) {
     let bound = if ctx.tier.thorough() { 3 } else { 2 };
-    let ws = if bound == 3 {
-        // two deviations over every use site, and three deviations over the first eight use sites
-        let mut ws = worlds(2);
+    // the use site is expanded at no cost; the menu it is expanded over shrinks as the number of deviations grows:
+    // one deviation over every use site, two over the first 31 (statement and expression positions; the sites deeper
+    // inside access paths and after enumeration bodies vary one slot at a time), three (thorough) over the first eight
+    let ws = {
+        let mut ws = worlds(1);
         let mut seen: std::collections::HashSet<u64> = ws.iter().map(|w| crate::util::fnv(&w.text())).collect();
-        world::FEW_SITES.with(|f| f.set(true));
-        let deep = worlds(3);
-        world::FEW_SITES.with(|f| f.set(false));
-        for w in deep {
-            if seen.insert(crate::util::fnv(&w.text())) {
-                ws.push(w);
+        let mut deeper: Vec<(u32, usize)> = vec![(2, 31)];
+        if bound == 3 {
+            deeper.push((3, 8));
+        }
+        for (b, limit) in deeper {
+            world::SITE_LIMIT.with(|f| f.set(limit));
+            let more = worlds(b);
+            world::SITE_LIMIT.with(|f| f.set(0));
+            for w in more {
+                if seen.insert(crate::util::fnv(&w.text())) {
+                    ws.push(w);
+                }
             }
         }
         ws
-    } else {
-        worlds(bound)
     };
     ctx.rule = "slot world (types with enum / subrange / struct / array / alias slots, Callee, Fn, a host POU with variable, constant, external, function-block invocation and use-site slots, Main, a configuration with global / task slots): every assignment of the slots with at most `deviation_bound` costly deviations (valid options and planted faults alike); the use site (31 statement/expression positions), host kind and host position are cost-0 and fully expanded; plus each rule at scale (1 to 1000 elements, valid and with the fault at the first, middle and last element); distinct = distinct world text".into();
     ctx.bounds.insert("deviation_bound".into(), json!(bound));
@@ -396,12 +402,29 @@ pub fn replay(case: &Value) -> Result<String, String> {
 // C05(c): labels of diagnostics for planted faults
 
 fn label_problems(w: &World) -> Vec<(String, String)> {
+    let mut out = label_problems_in_order(w, &w.decls.iter().collect::<Vec<_>>());
+    // the same world with the callee as the very first text of the file (a span that starts at offset 0 is a span
+    // like any other), when a diagnostic may point at it
+    if w.violated.iter().any(|c| matches!(*c, "P0006" | "P0007" | "P0008" | "P0009")) {
+        let mut order: Vec<&crate::world::Decl> = w.decls.iter().filter(|d| d.name == "Callee").collect();
+        order.extend(w.decls.iter().filter(|d| d.name != "Callee"));
+        for (k, what) in label_problems_in_order(w, &order) {
+            let k = format!("{}/callee-first", k);
+            if !out.iter().any(|(k0, _)| format!("{}/callee-first", k0) == k) {
+                out.push((k, what));
+            }
+        }
+    }
+    out
+}
+
+fn label_problems_in_order(w: &World, decls: &[&crate::world::Decl]) -> Vec<(String, String)> {
     let mut out = vec![];
     // one file; remember where each declaration sits
     let mut text = String::new();
     let mut ranges = vec![];
     let mut boundaries: BTreeSet<usize> = BTreeSet::new();
-    for d in &w.decls {
+    for d in decls {
         let base = text.len();
         let t = d.text();
         let mut off = 0usize;
@@ -425,6 +448,34 @@ fn label_problems(w: &World) -> Vec<(String, String)> {
     for dg in diags {
         if dg.code == "P9999" {
             continue;
+        }
+        // every label, primary or secondary: it names a file, lies in the text, and when it runs up to the closing
+        // keyword of a construct it holds the construct's opening keyword too (a label covers what it is about,
+        // not the tail of it)
+        for (li, lb) in std::iter::once(&dg.primary).chain(dg.secondary.iter()).enumerate() {
+            let which = if li == 0 { "primary" } else { "secondary" };
+            if li > 0 && lb.file_id.to_string().is_empty() {
+                out.push((format!("{}/secondary-label-without-file", dg.code), format!("a secondary label ({:?}) of {} names no file", lb.message, dg.code)));
+                continue;
+            }
+            let (a, b) = (lb.location.start, lb.location.end);
+            if !(a <= b && b <= text.len()) || !text.is_char_boundary(a) || !text.is_char_boundary(b) {
+                if li > 0 {
+                    out.push((format!("{}/secondary-label-outside-text", dg.code), format!("label {}..{} ({:?}) of {} in a text of {} bytes", a, b, lb.message, dg.code, text.len())));
+                }
+                continue;
+            }
+            let covered = text[a..b].trim();
+            for (open, close) in [("FUNCTION_BLOCK", "END_FUNCTION_BLOCK"), ("FUNCTION", "END_FUNCTION"), ("PROGRAM", "END_PROGRAM"), ("TYPE", "END_TYPE"), ("CONFIGURATION", "END_CONFIGURATION"), ("STRUCT", "END_STRUCT"), ("RESOURCE", "END_RESOURCE")] {
+                let up = covered.to_ascii_uppercase();
+                if up.ends_with(close) && !(close == "END_FUNCTION" && up.ends_with("END_FUNCTION_BLOCK")) {
+                    let head = &up[..up.len() - close.len()];
+                    let has_open = head.split(|c: char| !(c.is_ascii_alphanumeric() || c == '_')).any(|wd| wd == open);
+                    if !has_open {
+                        out.push((format!("{}/{}-label-covers-the-end-of-a-construct-without-its-beginning", dg.code, which), format!("label {}..{} ({:?}: {:?}) of {} ends with {} but does not hold {}", a, b, lb.message, crate::util::short(covered, 30), dg.code, close, open)));
+                    }
+                }
+            }
         }
         let l = &dg.primary;
         let f = l.file_id.to_string();
@@ -474,7 +525,14 @@ fn label_problems(w: &World) -> Vec<(String, String)> {
                 .iter()
                 // a message may also name things that are not where the fault is (the type of an instance, a count):
                 // only the variable it is about is demanded
-                .filter_map(|d| d.split_once('=').filter(|(k, _)| k.trim().eq_ignore_ascii_case("variable")).map(|(_, v)| v.trim().to_lowercase()))
+                .filter_map(|d| {
+                    d.split_once('=')
+                        .filter(|(k, _)| {
+                            let k = k.trim().to_ascii_lowercase();
+                            k == "variable" || k.starts_with("undefined") || k == "source"
+                        })
+                        .map(|(_, v)| v.trim().to_lowercase())
+                })
                 .filter(|v| !v.is_empty() && words.contains(&v.as_str()))
                 .collect();
             if !named.is_empty() {
